@@ -969,6 +969,12 @@ func runC05(r *Rand, tier string, o *Out) {
 		o.Fail("objects passed to the generated stub and asked back: "+why, "gen.objects 1 => "+out+" "+tail(lastFailDetail, 400))
 	}
 	o.Count("scenario:objects-as-arguments-and-results")
+	// lists of objects as an argument and as a result (a listed finding)
+	o.Do("X", "gen.objectsx 2", true)
+	if c05LastObjX != "ok" {
+		o.Fail("a list of objects as an argument or a result of a generated method: the call fails", "gen.objects 2 => "+c05LastObjX+" "+tail(lastFailDetail, 400))
+	}
+	o.Count("known-scenarios")
 	npk, nval := 8, 3
 	if tier == "thorough" {
 		npk, nval = 80, 6
